@@ -101,6 +101,9 @@ pub fn survey(id: &str, n: usize, seed: u64) -> i32 {
         }
     });
     for (sig, (count, case, msg)) in groups.into_inner().unwrap() {
+        let path = format!("/verif/replays/survey-{}-{:016x}.json", id, crate::core::h64(&sig));
+        let _ = std::fs::write(&path, serde_json::json!({"property": id, "check": if id == "C03" { "document_lints" } else { "generated_documents" }, "case": case, "observed": msg}).to_string());
+        println!("   replay: {path}");
         println!("== {count}x {sig}\n   {}\n   {} {:?}", crate::core::truncate(&msg, 300), case.fe.label(), crate::core::truncate(&case.text, 200));
     }
     0
